@@ -257,7 +257,7 @@ func (w *World) parseContractLines(lines []string, locs []string, pkgRel string,
 		switch kw {
 		case "func", "dep":
 			nm := rest
-			if pkgRel != "" && (strings.HasPrefix(nm, "(") || !strings.Contains(nm, ".")) {
+			if pkgRel != "" && !strings.HasPrefix(nm, pkgRel+".") && !strings.HasPrefix(nm, "callback ") {
 				nm = pkgRel + "." + nm
 			}
 			if _, dup := w.contracts[nm]; dup {
